@@ -522,7 +522,7 @@ def shards(tier, seed):
     n = 320 if tier == "quick" else 16000
     specs = [{"kind": "sample", "seed": seed, "shard": i, "schedules": n // NSHARDS, "events": 200} for i in range(NSHARDS)]
     L = 7 if tier == "quick" else 9
-    for dev in ("ff2", "ff3", "ff2neg", "aff2p", "aff2n", "aff3p", "rs2", "rs3", "rs2a"):
+    for dev in ("ff2", "ff3", "ff2neg", "ffxs", "ffws", "aff2p", "aff2n", "aff3p", "rs2", "rs3", "rs2a"):
         specs.append({"kind": "enum", "dev": dev, "L": L})
     specs.append({"kind": "platform-netlists"})
     return specs
@@ -535,6 +535,10 @@ def make_enum_dev(name):
         return FFSyncDev(1, False, 3, 0, True)
     if name == "ff2neg":
         return FFSyncDev(1, False, 2, 1, True, neg=(False, True))
+    if name == "ffxs":       # signed input, wider signed output, elaborated for the platform override
+        return FFSyncDev(3, True, 2, -3, True, oshape=(6, True), platform="xilinx")
+    if name == "ffws":       # the same through the generic implementation
+        return FFSyncDev(3, True, 2, -3, True, oshape=(6, True))
     if name == "aff2p":
         return AsyncFFDev("AsyncFFSynchronizer", 2, "pos")
     if name == "aff2n":
